@@ -10,6 +10,7 @@ Inductive case :=
 | CCtr (key iv : list Z) (offset : Z) (src got : list Z)
 | CVerify (wins : list (Z * Z * list Z * list Z))      (* offset, limit, hash, what a whole-window fetch returns *)
           (offset limit : Z) (data : list Z) (ok : bool) (out : list Z)
+| CTrunc (size window p covered : Z)   (* an accepted incomplete download: length of the gap-free genuine prefix *)
 | CVq (hash : list Z) (limit : Z) (data : list Z) (accepted : bool)    (* verifier.verify *)
 | CQueue (pre : list (Z * Z))                           (* hashes given to newVerifier: offset, limit *)
          (srv : list (Z * list (Z * Z)))                (* what the hash server answered: asked offset, batch *)
@@ -55,6 +56,10 @@ Definition ok (c : case) : bool :=
       end
   | CCtr key iv offset src got => check_ctr key iv offset src got
   | CVerify wins offset limit data okv out => check_verify wins offset limit data okv out
+  | CTrunc size window p covered =>
+      (* C34_complete_partial + C34_empty_accepted: an accepted short chunk ends at the nominal end of a
+         hash window, an accepted empty chunk at a part boundary; nowhere else *)
+      (0 <=? covered) && (covered <? size) && ((covered mod window =? 0) || (covered mod p =? 0))
   | CVq hash limit data accepted =>
       Bool.eqb (vq_verify sha256 {| w_off := 0; w_limit := limit; w_hash := hash |} data) accepted
   | CQueue pre srv served finished => check_queue pre srv served finished
